@@ -248,8 +248,8 @@ def run(ctx):
         cs = runner.sharded_tlc(ctx, "GenCExpr", CFG.format(profile=pr, shard="@SHARD@", nshards="@NSHARDS@"), 16,
                                 f"GenCExpr_{pr}", timeout=3000, heap="2g")
         cases += cs
-    sim = runner.sharded_tlc(ctx, "GenCExpr", CFG.format(profile="sim", shard="@SHARD@", nshards=1), 16,
-                             "GenCExpr_sim", timeout=900, simulate=f"num={120 if q else 2500}", depth=20,
+    sim = runner.sharded_tlc(ctx, "GenCExpr", CFG.format(profile="sim", shard=0, nshards=1), 16,
+                             "GenCExpr_sim", timeout=900, simulate=f"num={15 if q else 300}", depth=20,
                              seed=ctx.seed + 5, heap="2g")
     seen = set()
     allc = []
